@@ -77,6 +77,25 @@ def run(ctx):
                              count=len(bad), which=bad[:8]))
     except lib.CoqEvalError as e:
         ties.append(dict(what='tie case file does not evaluate', detail=str(e)[-800:]))
+    # the same with real sockets and the OS scheduling the real threads (no controlled scheduler): a smoke test that the
+    # controlled runs are representative; compared with the sequential reference and with the model like the others
+    r2 = lib.rng(ctx['seed'], 'C09real')
+    real = []
+    for i in range(6 if th else 1):
+        real.append(dict(boards=sc.gen_boards(r2, r2.choice([1, 2, 3])), arrivals=sc.four_arrivals(r2), strategy='os-threads-real-sockets', sched_seed=0))
+    routs = lib.run_impl('session_real', dict(sessions=real), timeout=1200)
+    ritems = [(s, o['scripts'], sc.observed(s, o)) for s, o in zip(real, routs)]
+    rcodes = sc.spec_check('C09', 'real_oracle', ritems)
+    rties = sc.tie('C09', 'real_tie', ritems)
+    for s, o, code, tcode in zip(real, routs, rcodes, rties):
+        ok, why = complete(s, o)
+        if not ok or code:
+            viol.append(dict(kind='real-socket session does not complete as the reference says', input=dict(boards=s['boards'], arrivals=s['arrivals'], strategy=s['strategy'], sched_seed=0),
+                             observed=dict(result=o['result'], why=why, spec_bits=code, ends=o['ends']), expected='completion; log and transcripts equal to the sequential reference',
+                             how_found='real Server / Client over localhost sockets, OS scheduling', theorem_or_tie='C09 (validation of the controlled scheduler)',
+                             signature=dict(kind='c09 real', result=o['result'])))
+        if tcode:
+            ties.append(dict(what='Model/Session.v differs from a real-socket run', bits=tcode))
     strat = {}
     for s in ss:
         strat[s['strategy'].split(':')[0]] = strat.get(s['strategy'].split(':')[0], 0) + 1
@@ -85,7 +104,7 @@ def run(ctx):
                 rule='sessions of 1..5 boards (competitive / short / all-pass / mixed policies, random letter case, alerts, both card notations) each run under several scheduler strategies: '
                      'round robin, random, each thread lowest / highest priority, PCT with 1-3 priority change points; non-trivial = one controlled run; distinct by (boards, strategy, seed)',
                 samples=[dict(strategy=ss[0]['strategy'], steps=outs[0].get('steps'), result=outs[0]['result'], first_ops=(outs[0].get('schedule') or [])[:12])],
-                distribution=dict(strategies=strat, boards=[len(s['boards']) for s in ss[::6]], steps=[o.get('steps') for o in outs][:12],
+                distribution=dict(real_socket_sessions=len(real), strategies=strat, boards=[len(s['boards']) for s in ss[::6]], steps=[o.get('steps') for o in outs][:12],
                                   results={r: sum(1 for o in outs if o['result'] == r) for r in {o['result'] for o in outs}}),
                 violations=viol[:6], tie_mismatches=ties)
 
